@@ -254,6 +254,9 @@ func main() {
 	}
 	sort.Strings(funcs)
 	wall := time.Since(t0).Seconds()
+	for _, l := range c.InlineLog {
+		fmt.Println("  " + l)
+	}
 	fmt.Printf("property=%s tier=%s packages=%d rules=%d obligations=%d held=%d violated=%d known=%d undecided=%d wall=%.1fs\n",
 		p.ID, *tier, len(c.Pkgs), len(stats), total, held, viol, knownN, und, wall)
 	for _, s := range stats {
